@@ -177,14 +177,21 @@ func handleOpen(h *Handler, iq openIQ, e xmlstream.Encoder) error {
 	conn := newConn(h, l.s, iq, true, MaxBufferSize)
 	h.addStream(iq.Open.SID, conn)
 
-	l.eLock.Lock()
-	defer l.eLock.Unlock()
 	key := iq.From.String() + ":" + iq.Open.SID
+	l.eLock.Lock()
 	expect, ok := l.expected[key]
 	if ok {
 		delete(l.expected, key)
-		expect.c <- conn
-		return nil
+	}
+	l.eLock.Unlock()
+	if ok {
+		// The Expect call may be giving up at this very moment (its context
+		// ended): then the stream is accepted like any other.
+		select {
+		case expect.c <- conn:
+			return nil
+		case <-expect.done:
+		}
 	}
 	l.c <- conn
 	return nil
